@@ -252,7 +252,7 @@ def comboSched (combo : List (ISched FlatMap St Payload)) : Nat → ISched FlatM
 
 def uniformSched (sc : ISched FlatMap St Payload) : Nat → ISched FlatMap St Payload := fun _ => sc
 
-/-- {"g": graph case, "input": "x", "maxCalls": n, "noID": bool} →
+/-- {"g": graph case, "input": "x", "maxCalls": n, "noID": bool, "altsFull": bool} →
     {"calls":[…], "plain": call, "alts":[final results reachable under other completion orders]} -/
 def handle (c : Json) : JE Json := do
   let g ← J.field c "g"
@@ -277,7 +277,12 @@ def handle (c : Json) : JE Json := do
     match h.reverse with
     | _ :: prev :: _ => (match prev.res with | .interrupted cp _ => .inr cp | _ => .inl input)
     | _ => .inl input
-  let combos := levelCombos (nestDepth g + 1)
+  -- by default every probed schedule is applied uniformly at all levels; "altsFull": one probed
+  -- schedule per nesting level, independently (asked for by the harness when the uniform
+  -- alternatives do not explain the implementation's failure)
+  let combos : List (List (ISched FlatMap St Payload)) :=
+    if J.boolD c "altsFull" false then levelCombos (nestDepth g + 1)
+    else scheds.map (fun s => List.replicate (nestDepth g + 1) s)
   let distinct (outs : List (Out FlatMap St Payload)) : List Json :=
     ((outs.map (fun o => (Json.mkObj (resJson g o.res)).compress)).eraseDups).filterMap (fun t => (Json.parse t).toOption)
   let alts ← if isFail then (do
